@@ -555,6 +555,6 @@ def names_exist(ctx, R="R-C11-dispatch-tables"):
     missing = cc.undefined_package_attrs(ctx.prog, {"util", "_sphere"})
     for f, node, name in missing:
         ctx.bad(R, f, node, "%s is read here but the module no longer defines it: reaching this expression raises AttributeError instead of the "
-                "documented result / ValueError" % name, "names read from package modules exist")
+                "documented result / ValueError" % name, "names read from package modules exist", robust=True)
     if not missing:
         ctx.ok(R, "src/pydrobert/speech/util.py", "names read from package modules exist (config.* in util.py and _sphere.py)")
